@@ -101,26 +101,30 @@ def chanOfOpen (sid : UInt16) (o : DcepOpen) : Chan :=
     maxLifetime := if (o.channelType &&& 0x03) == 0x02 then some o.reliability.toUInt16 else none,
     reasm := [], events := [.open_] }
 
-/-- `handle_dcep(stream_id, data)`; `false` = `Err` -/
-def handleDcep (pl : Pl) (sid : UInt16) (data : Bytes) : Pl × Bool :=
+/-- `handle_dcep(stream_id, data)` on the parts of the endpoint it touches (channel table, requested
+actions); `false` = `Err` -/
+def dcepCore (chans : List Chan) (acts : List Act) (sid : UInt16) (data : Bytes) : (List Chan × List Act) × Bool :=
   match data with
-  | [] => (pl, true)
+  | [] => ((chans, acts), true)
   | t :: _ =>
     if t == 0x03 then
       match DcepOpen.unmarshal data with
-      | none => (pl, false)
+      | none => ((chans, acts), false)
       | some o =>
-        let pl1 :=
-          if pl.chans.any (fun c => c.id == sid) then pl
-          else { pl with chans := pl.chans ++ [chanOfOpen sid o], acts := pl.acts ++ [.newChannel sid] }
-        ({ pl1 with acts := pl1.acts ++ [.dcepAck sid] }, true)
+        if chans.any (fun c => c.id == sid) then ((chans, acts ++ [.dcepAck sid]), true)
+        else ((chans ++ [chanOfOpen sid o], acts ++ [.newChannel sid, .dcepAck sid]), true)
     else if t == 0x02 then
-      match findChan pl.chans sid with
+      match findChan chans sid with
       | some dc =>
-        if dc.state == 0 then ({ pl with chans := setChan pl.chans ({ dc with state := 1 }.emit .open_) }, true)
-        else (pl, true)
-      | none => (pl, true)
-    else (pl, true)
+        if dc.state == 0 then ((setChan chans ({ dc with state := 1 }.emit .open_), acts), true)
+        else ((chans, acts), true)
+      | none => ((chans, acts), true)
+    else ((chans, acts), true)
+
+/-- `handle_dcep(stream_id, data)`; `false` = `Err` -/
+def handleDcep (pl : Pl) (sid : UInt16) (data : Bytes) : Pl × Bool :=
+  let r := dcepCore pl.chans pl.acts sid data
+  ({ pl with chans := r.1.1, acts := r.1.2 }, r.2)
 
 def getDcepBuf (bs : List (UInt16 × Bytes)) (sid : UInt16) : Bytes :=
   match bs.find? (fun e => e.1 == sid) with
